@@ -7,6 +7,7 @@
   two `Type`s compares (major, minor, level).
 -/
 import BlocV.Model.Ops
+import BlocV.Gen.Sigs
 
 namespace BlocV
 
@@ -60,5 +61,36 @@ def acceptUn (op : UnOp) (t1 : Ty) : Bool :=
   match op with
   | .bnot => typeChecking t1 Ty.bool
   | .not | .neg | .pos => typeChecking t1 Ty.num
+
+end BlocV
+
+namespace BlocV
+open Gen
+
+/-- One parse-time check of a built-in's argument (generated `Gen.ArgCheck`, see extract/sigs.py). -/
+def checkArg (c : ArgCheck) (t : Ty) : Bool :=
+  match c with
+  | .tc m => typeChecking t { major := m }
+  | .tcor a b => typeChecking t { major := a } || typeChecking t { major := b }
+  | .level0 => t.level == 0
+  | .accept ms => ms.contains t.major
+  | .reject ms => !ms.contains t.major
+
+/-- Walk of a built-in's `parse()`: `none` = accepted, `some code` = the ParseError raised. -/
+def acceptArgs : List ArgSpec → List Ty → Option Nat
+  | [], [] => none
+  | [], _ :: _ => some EXC_PARSE_FUNC_ARG_NUM_S
+  | s :: _, [] => if s.optional then none else some EXC_PARSE_FUNC_ARG_NUM_S
+  | s :: ss, t :: ts =>
+    if !s.checks.all (checkArg · t) then some EXC_PARSE_FUNC_ARG_TYPE_S
+    else
+      -- `raw`: a first argument that type-checks as a string closes the argument list
+      let stop := s.checks.any fun c => match c with
+        | .tcor a _ => typeChecking t { major := a }
+        | _ => false
+      if stop then (if ts.isEmpty then none else some EXC_PARSE_FUNC_ARG_NUM_S) else acceptArgs ss ts
+
+def acceptBuiltin (name : String) (tys : List Ty) : Option (Option Nat) :=
+  (builtinSigs.find? (·.1 == name)).map fun (_, sig) => acceptArgs sig tys
 
 end BlocV
